@@ -37,7 +37,8 @@ def bounds(tier):
 def required_cells(tier):
     return ["class-size>=3", "classes>=2", "weak-digest-collision-different-content", "near-duplicate", "excluded-twin",
             "symlinked-twin", "hard-link", "empty-files", "no-duplicates", "non-source-twin", "cli", "same-size-same-mtime-different-content", "link-enumerated-before-target",
-            "class-size>20", "cli:class-size>20", "negation-after-wildcard", "cli:negation-after-wildcard", "two-directory-code-base"]
+            "class-size>20", "cli:class-size>20", "negation-after-wildcard", "cli:negation-after-wildcard", "two-directory-code-base", "directory-named-through-link",
+            "ancestor-directory-named-like-a-pattern"]
 
 
 def gen_case(rng, big=False, force_neg=False):
@@ -137,6 +138,10 @@ def oracle(root, case):
     return {frozenset(v) for v in by.values() if len(v) >= 2}, by
 
 
+def real_root_parts(root):
+    return set(os.path.realpath(root).split("/"))
+
+
 def cells_of(case, classes, by, root):
     cells = set()
     if any(len(c) >= 3 for c in classes):
@@ -171,8 +176,12 @@ def cells_of(case, classes, by, root):
         cells.add("hard-link")
     if case["nonsrc"]:
         cells.add("non-source-twin")
+    if any(p.endswith("/") and p.rstrip("/") in real_root_parts(root) for p in case["excludes"]):
+        cells.add("ancestor-directory-named-like-a-pattern")
     if any(p.startswith("!") for p in case["excludes"]):
         cells.add("negation-after-wildcard")
+    if len(case["files"]) % 2 == 0:
+        cells.add("directory-named-through-link")
     sizes = {}
     for content in by:
         sizes.setdefault(len(content), []).append(content)
@@ -185,7 +194,13 @@ def cells_of(case, classes, by, root):
 
 def observe(root, case, weak):
     from codebasin import CodeBase, report
-    cb = CodeBase(root, exclude_patterns=list(case["excludes"]))
+    given = root
+    if len(case["files"]) % 2 == 0:
+        # the code-base directory named through a symbolic link
+        given = root.rstrip("/") + "-by-link"
+        if not os.path.lexists(given):
+            os.symlink(root, given)
+    cb = CodeBase(given, exclude_patterns=list(case["excludes"]))
     orig = hashlib.file_digest
     calls = [0]
     if weak:
@@ -302,7 +317,9 @@ def post_check(m, tier):
 def run_shard(ctx):
     b = bounds(ctx.tier)
     rng = ctx.rng("cases")
-    root = os.path.join(ctx.scratch, "cb")
+    # the tree sits below directories called d0 / d1 / sub: patterns naming such directories apply inside the code base only
+    root = os.path.join(ctx.scratch, "d1", "d0", "sub", "cb")
+    os.makedirs(os.path.dirname(root), exist_ok=True)
     for i in range(b["cases"]):
         # every 3rd command-line case and one case in 50 elsewhere holds a class of more than 20 files
         case = gen_case(rng, big=(i % 3 == 1 if i < b["cli_cases"] else i % 50 == 7), force_neg=(i < b["cli_cases"] and i % 3 == 2))
